@@ -20,6 +20,7 @@ func ids(n int) []uint64 {
 
 type feat struct {
 	async, prevote, checkq, stepdown bool
+	nofwd, noccv                     bool // DisableProposalForwarding, DisableConfChangeValidation
 }
 
 func (f feat) tag() string {
@@ -36,12 +37,19 @@ func (f feat) tag() string {
 	if f.stepdown {
 		s += "+sd"
 	}
+	if f.nofwd {
+		s += "+nofwd"
+	}
+	if f.noccv {
+		s += "+noccv"
+	}
 	return s
 }
 
 func (f feat) cfg() NodeCfg {
 	c := DefaultNodeCfg()
 	c.Async, c.PreVote, c.CheckQuorum, c.StepDownOnRemoval = f.async, f.prevote, f.checkq, f.stepdown
+	c.DisableForwarding, c.DisableCCValidation = f.nofwd, f.noccv
 	return c
 }
 
@@ -628,6 +636,11 @@ func poolSafety(tier string) (p pool) {
 		)
 		p.bfs = append(p.bfs, split(bfsReplicate(f, 2)))
 	}
+	// proposals at followers with forwarding disabled (refused, never appended)
+	for _, f := range []feat{{nofwd: true}, {nofwd: true, async: true}} {
+		p.dd = append(p.dd, ddScn("no-forwarding", 3, ids(3), f,
+			seq(camp(1), prop(2), prop(1), prop(3), isolate(1), camp(2), prop(1), prop(3), prop(2), heal(), prop(1), prop(3), prop(2)), k, defaultFaults...))
+	}
 	// real aliasing between the unstable log and batches already handed out (replay-based, no clones)
 	for steps := 3; steps <= 6; steps++ {
 		sb := ddScn(fmt.Sprintf("stale-batch%d", steps), 3, ids(3), asyncF, scriptStaleBatchN(steps), k, int(BDrop), 1, int(BDup), 1, int(BCrash), 1)
@@ -781,6 +794,9 @@ func poolConf(tier string) (p pool) {
 			confSc("conf+failover", f, scriptConfFailover(), k, defaultFaults...),
 		)
 	}
+	// validation of conf-change proposals disabled; the application itself proposes one change at a time
+	p.dd = append(p.dd, confSc("simple-conf", feat{noccv: true}, scriptSimpleConf(), k, defaultFaults...),
+		confSc("joint", feat{noccv: true, async: true}, scriptJoint(), k, defaultFaults...))
 	for _, f := range []feat{syncF, asyncF} {
 		p.dd = append(p.dd, replaceTwoSc(f, k, defaultFaults...))
 		p.dd = append(p.dd, autoLeaveTransferSc(f, k, int(BTick), 1, int(BDrop), 1, int(BDup), 1))
